@@ -49,6 +49,8 @@ type Runner struct {
 	hist     *History
 	results  []string
 	lastSlash []slashEv
+	wantDigest bool     // C20: record a state digest after every step
+	digests    []string
 }
 
 var groupsOrder = []string{"bank", "oblig", "bind", "index", "ctx", "queue", "req", "vol", "cb", "slash"}
@@ -239,6 +241,9 @@ func (r *Runner) apply(o *Op) string {
 	}
 	r.mon.after(o, res, pre)
 	r.results = append(r.results, res)
+	if r.wantDigest {
+		r.digests = append(r.digests, r.digest(res))
+	}
 	r.hist.Ops = append(r.hist.Ops, *o)
 	r.step++
 	return res
